@@ -391,6 +391,13 @@ func execC17Bubble(t *testing.T, p *sim.Program, c *sim.Ctx) {
 			return
 		}
 		c.OpsDone++
+		// the object's own answer to "must I be reseeded" follows the same bookkeeping as the refusals
+		if nr, ok := obj.(interface{ NeedReseed() bool }); ok {
+			if want := needReseed(); want != 2 && nr.NeedReseed() != (want == 1) {
+				c.Fail("need-reseed-wrong", i, op.K, "NeedReseed() = %v before this operation, but %d generate calls were made since the last (re)seed (interval %d) and %v elapsed (limit %v, gm=%v)", nr.NeedReseed(), counter-1, interval, time.Since(seeded), tint, gm)
+				return
+			}
+		}
 		switch op.K {
 		case "clock":
 			d := time.Duration(op.Int(0))
